@@ -388,9 +388,10 @@ def module_private_helpers(body, exclude=()):
 
 
 def scalarize_tuples(prog, body):
-    """`body` with local tuples taken apart again (`match (a, b) { (false, 0) => .. }`): a local whose only definition is a
-    tuple aggregate of plain locals / constants and which is only read field by field is replaced, field by field, by its
-    components.  A fact-level simplification: the tests on `_t.0` / `_t.1` become tests on `a` / `b`."""
+    """`body` with local tuples taken apart again (`match (a, b) { (false, 0) => .. }`, `let (x, y) = match s { A => (p, q), B =>
+    (r, t) }`): a local all of whose definitions are tuple aggregates of one arity and which is only read field by field is
+    split into one fresh local per component — every definition becomes component assignments, every read `_t.i` a read of
+    component i.  A fact-level simplification that keeps the components apart for the flow analyses."""
     raw = dict(body.raw)
     mir = copy.deepcopy(body.mir)
     raw["mir"] = mir
@@ -399,63 +400,83 @@ def scalarize_tuples(prog, body):
     for blk in blocks:
         for st in blk["s"]:
             if st["k"] == "assign":
-                defs.setdefault(st["place"]["l"], []).append(st)
+                defs.setdefault(st["place"]["l"], []).append(st if not st["place"]["p"] else None)
         t = blk["t"]
         if t["k"] == "call" and t.get("dest") is not None:
             defs.setdefault(t["dest"]["l"], []).append(None)
+        if t["k"] == "yield" and t.get("resume_arg") is not None:
+            defs.setdefault(t["resume_arg"]["l"], []).append(None)
     cands = {}
     for l, ds in defs.items():
-        if len(ds) == 1 and ds[0] is not None and not ds[0]["place"]["p"] and ds[0]["rv"]["k"] == "agg" and ds[0]["rv"].get("agg") == "tuple" and ds[0]["rv"]["ops"]:
-            ops = ds[0]["rv"]["ops"]
-            if all(("const" in o) or ((o.get("copy") or o.get("move")) and not (o.get("copy") or o.get("move"))["p"]) for o in ops):
-                cands[l] = ops
+        if l <= mir["argc"] or not ds or any(d is None for d in ds):
+            continue
+        if all(d["rv"]["k"] == "agg" and d["rv"].get("agg") == "tuple" and d["rv"]["ops"] for d in ds) and len({len(d["rv"]["ops"]) for d in ds}) == 1:
+            cands[l] = len(ds[0]["rv"]["ops"])
     if not cands:
         return body
-    # every read of the tuple must be a read of one field
     bad = set()
 
-    def visit(x, replace):
+    def scan(x):
         if isinstance(x, dict):
-            for key in ("copy", "move"):
-                if key in x and isinstance(x[key], dict) and x[key].get("l") in cands:
-                    pl = x[key]
-                    proj = pl["p"]
-                    if proj and isinstance(proj[0], dict) and "f" in proj[0] and proj[0]["f"] < len(cands[pl["l"]]):
-                        if replace:
-                            comp = cands[pl["l"]][proj[0]["f"]]
-                            if "const" in comp and len(proj) == 1:
-                                return copy.deepcopy(comp)
-                            cp = comp.get("copy") or comp.get("move")
-                            if cp is not None:
-                                return {"copy": {"l": cp["l"], "p": list(proj[1:])}}
-                    else:
-                        bad.add(pl["l"])
-            if "l" in x and "p" in x and isinstance(x["l"], int) and x["l"] in cands and not replace:
-                # a place used otherwise (ref, discr, drop of the whole tuple is harmless)
-                pass
-            return {k: visit(v, replace) for k, v in x.items()}
-        if isinstance(x, list):
-            return [visit(v, replace) for v in x]
-        return x
+            if "l" in x and "p" in x and isinstance(x["l"], int) and x["l"] in cands:
+                proj = x["p"]
+                if not (proj and isinstance(proj[0], dict) and "f" in proj[0] and proj[0]["f"] < cands[x["l"]]):
+                    bad.add(x["l"])
+            for v in x.values():
+                scan(v)
+        elif isinstance(x, list):
+            for v in x:
+                scan(v)
     for blk in blocks:
         for st in blk["s"]:
             if st["k"] == "assign":
-                rv = st["rv"]
-                if rv["k"] in ("ref", "discr", "len") and rv["place"]["l"] in cands:
-                    bad.add(rv["place"]["l"])
-                visit(rv, False)
-        visit({k: v for k, v in blk["t"].items() if k in ("discr", "args", "cond", "ops")}, False)
-    live = {l: o for l, o in cands.items() if l not in bad}
-    if not live:
+                if st["place"]["l"] in cands and not st["place"]["p"]:
+                    scan(st["rv"])
+                else:
+                    scan(st)
+            elif st["k"] not in ("storage_live", "storage_dead", "nop"):
+                scan(st)
+        t = blk["t"]
+        if t["k"] == "drop" and t.get("place", {}).get("l") in cands and not t["place"]["p"]:
+            continue          # dropping the whole tuple drops its components
+        scan({k: v for k, v in t.items() if k not in ("target", "unwind", "targets", "otherwise")})
+    cands = {l: n for l, n in cands.items() if l not in bad}
+    if not cands:
         return body
-    cands = live
+    comp = {}
+    for l, n in cands.items():
+        comp[l] = []
+        for i in range(n):
+            comp[l].append(len(mir["locals"]))
+            mir["locals"].append({"ty": "?component", "name": None, "component_of": l, "index": i})
+
+    def rewrite(x):
+        if isinstance(x, dict):
+            if "l" in x and "p" in x and isinstance(x["l"], int) and x["l"] in cands and x["p"]:
+                d = dict(x)
+                d["l"] = comp[x["l"]][x["p"][0]["f"]]
+                d["p"] = [rewrite(e) for e in x["p"][1:]]
+                return d
+            return {k: rewrite(v) for k, v in x.items()}
+        if isinstance(x, list):
+            return [rewrite(v) for v in x]
+        return x
     for blk in blocks:
+        out = []
         for st in blk["s"]:
-            if st["k"] == "assign" and not (st["place"]["l"] in cands and not st["place"]["p"]):
-                st["rv"] = visit(st["rv"], True)
-        for k in ("discr", "args", "cond", "ops"):
-            if k in blk["t"]:
-                blk["t"][k] = visit(blk["t"][k], True)
+            if st["k"] == "assign" and st["place"]["l"] in cands and not st["place"]["p"]:
+                for i, o in enumerate(st["rv"]["ops"]):
+                    out.append({"k": "assign", "place": {"l": comp[st["place"]["l"]][i], "p": []}, "rv": {"k": "use", "op": rewrite(o)}, "span": st.get("span")})
+            else:
+                out.append(rewrite(st))
+        blk["s"] = out
+        t = blk["t"]
+        if t["k"] == "drop" and t.get("place", {}).get("l") in cands and not t["place"]["p"]:
+            blk["t"] = {"k": "goto", "target": t["target"]}
+        else:
+            for k in list(t.keys()):
+                if k not in ("target", "unwind", "targets", "otherwise", "k"):
+                    t[k] = rewrite(t[k])
     raw["scalarized"] = sorted(cands)
     nb = Body(prog, raw, body.crate)
     nb.children = body.children
